@@ -169,11 +169,11 @@ Fixpoint apply_delta (delta : Z) (l : list stream) : list stream * bool * bool :
   end.
 
 Definition on_settings_initial_window (c : conn) (value : Z) : conn * outcome :=
-  if FLOW_CONTROL_MAX_WINDOW <? value then (c, GoAway ProtocolError)
+  if FLOW_CONTROL_MAX_WINDOW <? value then (c, GoAway FlowControlError)
   else
     let delta := value - init_win c in
     let '(l, opened, err) := apply_delta delta (streams c) in
-    if err then (set_streams c l, GoAway ProtocolError)
+    if err then (set_streams c l, GoAway FlowControlError)
     else
       (mkconn (cwin c) value (max_frame c) (max_conc c) (last_id c) (is_client c) l (writable c || opened),
        Continue).
